@@ -219,7 +219,7 @@ class World(object):
         kf = None
         name = type(exc).__name__
         msg = "%s raised %s: %s" % (method, name, str(exc)[:300])
-        kf, tags = self.classify_escape(method, exc)
+        kf, tags = self.classify_escape(method, exc, args)
         if self.fault_fired or self.o.get("data_fault"):
             self.report("C11", "contained", msg, tags=tags, kf=kf)
         if isinstance(exc, CallHang):
@@ -227,8 +227,14 @@ class World(object):
         self.report("C15", "no_internal_error", msg, tags=tags, kf=kf)
         raise Abort(msg)
 
-    def classify_escape(self, method, exc):
+    def classify_escape(self, method, exc, args=()):
         """Recognise escapes that belong to a known finding (precise signatures only)."""
+        if method == "update_task_state" and isinstance(exc, KeyError) and "items" in str(exc) and len(args) >= 2:
+            b = self.ledger.barriers.get((args[0], args[1]))
+            if b is not None and b["fired"] and b["late"]:
+                # a late inbound arrival at a partial with-items join cleared the item list of
+                # the running task; the next item event cannot be recorded
+                return "KF-join-partial-late-arrival", ["join_partial", "arrival_after_join_started", "with_items_join"]
         return None, []
 
     def _twin_call(self, method, args, kw, ret, exc):
@@ -391,6 +397,12 @@ class World(object):
                 self.report("C04", "no_offers_after_terminal", "task %s@%s offered after the workflow became %s"
                             % (tid, route, self.terminal_at_offer))
         live = L.live_exec(tid, route)
+        if live is not None and live.items is None and L.reruns:
+            # after a rerun the engine may offer a task both as work that was still due and as a
+            # successor of the re-executed task; two concurrent executions of one (task, route)
+            # cannot be told apart by the conductor, so the history stops being meaningful
+            self.bump("aborted_duplicate_offer_after_rerun")
+            raise Abort("duplicate offer of %s@%s after a rerun" % (tid, route))
         x = L.on_offer(tid, route, vals, t.get("delay"), st_before)
         new_exec = x is not live
         if self.accepted_rerun and new_exec and x.kind == "unjustified":
@@ -1240,6 +1252,12 @@ class World(object):
                 if vnode[0] == "ctx":
                     got = (out or {}).get(name, "<absent>")
                     if not any(jeq(got, v) for v in written.get(vnode[1], [])):
+                        f = self.p.get("_features") or set()
+                        if "dict_republish" in f and isinstance(got, dict):
+                            self.report("C10", "output_rendered", "canceled workflow output %s is a deep merge of "
+                                        "several dict values written to %s" % (name, vnode[1]), tags=["dict_republish"],
+                                        kf="KF-dict-republish-deep-merge")
+                            continue
                         self.report("C10", "output_rendered", "canceled workflow output %s = %s is none of the values "
                                     "written to %s" % (name, canon(got)[:100], vnode[1]))
 
